@@ -2,12 +2,17 @@
 // back as the same text in UTF-8; Directory/File copy and move preserve content byte for byte.
 //
 // Oracle: a byte-string model of what one path holds under put/write/append/<</close/reopen through
-// fresh File/TextFile objects; the bytes on disk are read with plain open()/read(); a reference line
+// fresh File/TextFile objects (modes bin, lines, hist, bom, copy, big) or through ONE long-lived object (mode sameobj);
+// copies/moves also from several threads at once on distinct files (mode copy_mt, beyond the stated quantifier);
+// the bytes on disk are read with plain open()/read(); a reference line
 // splitter (split at LF, remove one CR before each LF); reference UTF-8 / UTF-16LE / UTF-16BE encoders.
 // All scratch files live in <out>/fs, have per-case names and are removed when the case ends.
 #include "common/runner.h"
 #include <algorithm>
 #include <math.h>
+#include <sched.h>
+#include <atomic>
+#include <thread>
 #include <asl/File.h>
 #include <asl/TextFile.h>
 #include <asl/Directory.h>
@@ -1074,6 +1079,470 @@ static void mode_big(vf::Ctx& c)
 	if (c.want_sample()) c.sample(c.curdesc());
 }
 
+// ------------------------------------------------------------------ mode sameobj: one long-lived File / TextFile object
+// States of the object: CLOSED (no stdio handle), READ0 (open for reading, position 0), READX (open for reading, position
+// somewhere else: content()/text()/firstBytes()/lines() leave the object like that), WRITE (open with WRITE or APPEND).
+// What the unchanged library supports on one object (read from File.cpp/TextFile.cpp and confirmed by running):
+//  * content()/text()/firstBytes()/lines() open the file themselves when the object is CLOSED and read from the CURRENT
+//    position when it is open: they return what was written only from CLOSED or READ0. They leave the object open (READX).
+//  * open() on an object that is already open overwrites the handle (the old FILE* is lost), so the generator always closes first.
+//  * size()/lastModified()/isFile()/isDirectory() cache one stat result until close() (exists() re-stats); while the object is open for
+//    writing they report the on-disk state without the stdio buffer, or a value cached before the write: observed, never judged.
+//  * put()/write()/append()/<< open the file themselves only when the object is CLOSED (File: only put()).
+// Judged (the property: what was written is what content()/text()/firstBytes()/read()/lines() return afterwards and size() is the
+// number of bytes written): every read from CLOSED or READ0, every size() while the object is not open for writing, and the bytes on
+// disk (plain open/read) after every close and every read.
+enum { SO_CLOSED, SO_READ0, SO_READX, SO_WRITE };
+
+struct SoState
+{
+	std::string path;
+	Bytes model;
+	bool exists;       // the path exists on disk
+	int st;
+	int writes;        // write operations (including truncating opens) done through the object
+	int judged;        // judged same-object observations that followed a write
+	bool unobserved;   // something was written since the last judged same-object observation
+	int queries_before_write, grew_after_query;
+	size_t size_at_query;
+	bool queried;
+};
+
+static void so_disk(vf::Ctx& c, const SoState& s, const char* key)
+{
+	Bytes disk;
+	if (!posix_read(s.path, disk)) c.fail(std::string(key) + ".missing", "the file cannot be opened with open()");
+	same(c, key, disk, s.model);
+}
+
+static void so_observed(SoState& s)
+{
+	if (s.writes) s.judged++;
+	s.unobserved = false;
+	s.queried = true;
+	s.size_at_query = s.model.size();
+}
+
+static void so_size(vf::Ctx& c, File& f, SoState& s)
+{
+	c.op("size()");
+	Long sz = f.size();
+	if (s.st == SO_WRITE) {
+		c.count(sz == (Long)s.model.size() ? "observed.size()-while-writing=written-so-far" : "observed.size()-while-writing=other(unflushed)");
+		s.queried = true;
+		s.size_at_query = s.model.size();
+	} else if (!s.exists) c.count(sz == -1 ? "observed.size()-of-missing-path=-1" : "observed.size()-of-missing-path=other");
+	else {
+		if (sz != (Long)s.model.size())
+			c.fail("sameobj.size", vf::fmt("size()=%lld through the long-lived object (state %s), the path holds the %zu bytes written",
+			                               (long long)sz, s.st == SO_CLOSED ? "closed" : "open for reading", s.model.size()));
+		c.count("sameobj.judged.size()");
+		so_observed(s);
+	}
+}
+
+static void so_meta(vf::Ctx& c, File& f, SoState& s)
+{
+	struct stat sb;
+	bool on_disk = stat(s.path.c_str(), &sb) == 0;
+	switch (c.rng.below(6)) {
+	case 0: case 1: so_size(c, f, s); break;
+	case 2: { c.op("exists()"); bool e = f.exists(); c.count(e == on_disk ? "observed.exists()=stat" : "observed.exists()!=stat"); break; }
+	case 3: { c.op("isFile()"); bool e = f.isFile(); c.count(e == on_disk ? "observed.isFile()=stat" : "observed.isFile()!=stat"); break; }
+	case 4: { c.op("isDirectory()"); bool e = f.isDirectory(); c.count(!e ? "observed.isDirectory()=false" : "observed.isDirectory()=true-on-a-file"); break; }
+	default: {
+		c.op("lastModified()");
+		double t = f.lastModified().time();
+		c.count(!on_disk ? "observed.lastModified()-of-missing-path" : t == (double)sb.st_mtime ? "observed.lastModified()=st_mtime" : "observed.lastModified()!=st_mtime");
+	}
+	}
+	if (on_disk && s.st != SO_WRITE) { s.queried = true; s.size_at_query = s.model.size(); }
+	c.count("op.metadata-query");
+}
+
+// a read through the object; legal from CLOSED (existing path) and READ0
+static void so_read(vf::Ctx& c, File& f, TextFile* tf, SoState& s)
+{
+	bool textok = tf && s.model.find('\0') == Bytes::npos && !starts_with_bom(s.model);
+	size_t n = s.model.size();
+	int k = c.rng.below(10);
+	if (s.st == SO_READ0 && !tf && c.rng.chance(0.3)) k = 9;
+	if (tf && textok && k < 5) {
+		if (k < 3) {
+			c.op("text()");
+			String t = tf->text();
+			same_str(c, "sameobj.text", t, s.model);
+			c.count("sameobj.judged.text()");
+		} else {
+			c.op("lines()");
+			Array<String> L = tf->lines();
+			std::vector<Bytes> got;
+			for (int i = 0; i < L.length(); i++) got.push_back(bytes_of(L[i]));
+			compare_lines(c, "sameobj.lines", got, ref_split(s.model));
+			c.count("sameobj.judged.lines()");
+		}
+	} else if (k < 7) {
+		c.op("content()");
+		ByteArray a = f.content();
+		same(c, "sameobj.content", bytes_of(a), s.model);
+		c.count("sameobj.judged.content()");
+	} else if (k < 9 || s.st != SO_READ0) {
+		size_t want = c.rng.chance(0.3) ? n : c.rng.chance(0.5) ? n + 1 + c.rng.below(70000) : c.rng.below((uint32_t)n + 1);
+		c.op(vf::fmt("firstBytes(%zu)", want));
+		ByteArray a = f.firstBytes((int)want);
+		same(c, "sameobj.firstBytes", bytes_of(a), s.model.substr(0, want < n ? want : n));
+		c.count("sameobj.judged.firstBytes()");
+	} else {
+		c.op("read(p,n) to the end");
+		Bytes got;
+		size_t chunk = n / 8 + 1 + c.rng.below(300);
+		for (int guard = 0; guard < 100; guard++) {
+			char* buf = (char*)malloc(chunk);
+			int r = f.read(buf, (int)chunk);
+			if (r < 0 || (size_t)r > chunk) { free(buf); c.fail("sameobj.read.count", vf::fmt("read(p,%zu) returned %d", chunk, r)); }
+			got.append(buf, (size_t)r);
+			free(buf);
+			if ((size_t)r < chunk) break;
+		}
+		same(c, "sameobj.read", got, s.model);
+		c.count("sameobj.judged.read()");
+	}
+	if (s.queried && s.writes && n > s.size_at_query) s.grew_after_query++;
+	s.st = SO_READX;
+	so_observed(s);
+	so_disk(c, s, "sameobj.disk-after-read");
+}
+
+static void so_wrote(vf::Ctx& c, SoState& s)
+{
+	s.writes++;
+	s.unobserved = true;
+	s.exists = true;
+	if (s.queried) s.queries_before_write++;
+}
+
+static void so_open(vf::Ctx& c, File& f, TextFile* tf, SoState& s, File::OpenMode m)
+{
+	c.op(m == File::WRITE ? "open(WRITE)" : m == File::APPEND ? "open(APPEND)" : "open(READ)");
+	bool ok = tf ? tf->open(m) : f.open(m);
+	if (!ok) c.fail(m == File::WRITE ? "sameobj.open.write" : m == File::APPEND ? "sameobj.open.append" : "sameobj.open.read", "open(mode) returned false on the long-lived object");
+	if (m == File::READ) { s.st = SO_READ0; c.count("op.open(READ)-same-object"); return; }
+	if (m == File::WRITE) s.model.clear();
+	s.st = SO_WRITE;
+	so_wrote(c, s);
+	c.count(m == File::WRITE ? "op.open(WRITE)-same-object" : "op.open(APPEND)-same-object");
+}
+
+// a writing call on a CLOSED object: the call opens the file itself
+static void so_autowrite(vf::Ctx& c, File& f, TextFile* tf, SoState& s, bool force_append)
+{
+	if (!tf) {
+		Bytes b = small_bin(c);
+		c.op(vf::fmt("put(%zu bytes) [opens WRITE]", b.size()));
+		if (!f.put(BA(b))) c.fail("put.returned-false", "put() on the closed long-lived object returned false");
+		s.model = b;
+		c.count("op.put");
+	} else {
+		Bytes t = small_text(c);
+		int k = force_append ? 4 : (int)c.rng.below(6);
+		switch (k) {
+		case 0: c.op(vf::fmt("write(%zu chars) [opens WRITE]", t.size())); if (!tf->write(S(t))) c.fail("write.returned-false", "TextFile::write returned false"); s.model = t; c.count("op.TextFile.write"); break;
+		case 1: c.op(vf::fmt("put(%zu chars) [opens WRITE]", t.size())); if (!tf->put(S(t))) c.fail("put.returned-false", "TextFile::put returned false"); s.model = t; c.count("op.TextFile.put"); break;
+		case 2: c.op(vf::fmt("<<String(%zu chars) [opens WRITE]", t.size())); *tf << S(t); s.model = t; c.count("op.TextFile<<String"); break;
+		case 3: c.op(vf::fmt("<<cstr(%zu chars) [opens WRITE]", t.size())); *tf << t.c_str(); s.model = t; c.count("op.TextFile<<cstr"); break;
+		default: c.op(vf::fmt("append(%zu chars) [opens APPEND]", t.size())); if (!tf->append(S(t))) c.fail("append.returned-false", "TextFile::append returned false"); s.model += t; c.count("op.TextFile.append");
+		}
+	}
+	s.st = SO_WRITE;
+	so_wrote(c, s);
+}
+
+static void so_close(vf::Ctx& c, File& f, SoState& s)
+{
+	c.op("close()");
+	bool was_writing = s.st == SO_WRITE;
+	f.close();
+	s.st = SO_CLOSED;
+	c.count(was_writing ? "op.close-after-writing" : "op.close");
+	if (was_writing) {
+		so_disk(c, s, "sameobj.disk-after-close");
+		if (c.rng.chance(0.5)) so_size(c, f, s);
+	}
+}
+
+static void so_step(vf::Ctx& c, File& f, TextFile* tf, SoState& s)
+{
+	int r = c.rng.below(100);
+	switch (s.st) {
+	case SO_CLOSED:
+		if (!s.exists) {
+			if (r < 25) so_meta(c, f, s);
+			else if (r < 65) so_open(c, f, tf, s, c.rng.chance(0.5) ? File::WRITE : File::APPEND);
+			else so_autowrite(c, f, tf, s, false);
+		} else if (r < 25) so_meta(c, f, s);
+		else if (r < 45) so_open(c, f, tf, s, r < 31 ? File::WRITE : r < 39 ? File::APPEND : File::READ);
+		else if (r < 60) so_autowrite(c, f, tf, s, false);
+		else if (r < 96) so_read(c, f, tf, s);
+		else so_close(c, f, s);
+		break;
+	case SO_READ0:
+		if (r < 65) so_read(c, f, tf, s);
+		else if (r < 85) so_meta(c, f, s);
+		else so_close(c, f, s);
+		break;
+	case SO_READX:
+		if (r < 60) so_close(c, f, s);
+		else if (r < 90) so_meta(c, f, s);
+		else { c.op("seek(0)"); f.seek(0); s.st = SO_READ0; c.count("op.seek(0)-same-object"); }
+		break;
+	default:
+		if (r < 50) {
+			Bytes w = tf ? text_ops(c, *tf, 1) : file_ops(c, f, 1);
+			s.model += w;
+			so_wrote(c, s);
+		} else if (r < 85) so_close(c, f, s);
+		else so_meta(c, f, s);
+	}
+}
+
+static void sameobj_run(vf::Ctx& c, File& f, TextFile* tf, SoState& s)
+{
+	int steps = c.rng.range(3, 12);
+	for (int i = 0; i < steps; i++) so_step(c, f, tf, s);
+	c.count("sameobj.steps", steps);
+	// epilogue: every history ends with something written through the object and read back through it
+	if (!s.writes) {
+		if (s.st != SO_CLOSED) so_close(c, f, s);
+		so_autowrite(c, f, tf, s, tf != 0 && c.rng.chance(0.7));
+	}
+	if (s.unobserved) {
+		if (s.st != SO_CLOSED) so_close(c, f, s);
+		if (c.rng.chance(0.5)) so_size(c, f, s);
+		so_read(c, f, tf, s);
+	}
+}
+
+static void mode_sameobj(vf::Ctx& c)
+{
+	Scratch sc(c);
+	bool text = (c.idx & 1) != 0;
+	SoState s;
+	s.path = sc.file(text ? "so.txt" : "so.bin");
+	s.exists = false;
+	s.st = SO_CLOSED;
+	s.writes = s.judged = s.queries_before_write = s.grew_after_query = 0;
+	s.unobserved = s.queried = false;
+	s.size_at_query = 0;
+	if (c.rng.chance(0.7)) {
+		s.model = text ? small_text(c) : small_bin(c);
+		if (text && starts_with_bom(s.model)) s.model[0] = 'x';
+		posix_write(s.path, s.model);
+		s.exists = true;
+	}
+	c.desc(vf::fmt("one long-lived %s object on a path that %s:", text ? "TextFile" : "File", s.exists ? vf::fmt("holds %zu bytes", s.model.size()).c_str() : "does not exist"));
+	c.count(text ? "sameobj.TextFile-object" : "sameobj.File-object");
+	c.count(s.exists ? "sameobj.path-existed" : "sameobj.path-was-missing");
+	if (text) {
+		TextFile f(S(s.path));
+		sameobj_run(c, f, &f, s);
+		c.count(s.st == SO_CLOSED ? "sameobj.destroyed-closed" : "sameobj.destroyed-open");
+	} else {
+		File f(S(s.path));
+		sameobj_run(c, f, 0, s);
+		c.count(s.st == SO_CLOSED ? "sameobj.destroyed-closed" : "sameobj.destroyed-open");
+	}
+	so_disk(c, s, "sameobj.disk-after-destructor");
+	check_size(c, s.path, s.model);
+	if (c.rng.chance(0.5)) check_content(c, s.path, s.model);
+	if (s.queries_before_write) c.count("sameobj.metadata-or-read-then-write-on-same-object");
+	if (s.grew_after_query) c.count("sameobj.read-back-after-growth-since-last-query", s.grew_after_query);
+	if (s.model.size() > 254) c.count("sameobj.content-crossed-254");
+	if (s.writes && s.judged) c.distinct(vf::fnv(c.curdesc(), vf::fnv(s.model)));
+	else c.count("sameobj.trivial(no-write-then-readback)");
+	if (c.want_sample() && c.idx % 41 < 2) c.sample(c.curdesc().substr(0, 900) + vf::fmt(" => %zu bytes", s.model.size()));
+}
+
+// ------------------------------------------------------------------ mode copy_mt: concurrent copies/moves of different files
+// Beyond the property's quantifier (which names no threads): every thread works on its own files only.
+struct MtOp
+{
+	int kind;                 // 0 Directory::copy(f,name) 1 Directory::copy(f,dir) 2 File::copy(name) 3 File::copy(dir) 4 Directory::move(f,name) 5 Directory::move(f,dir) 6 File::move(name)
+	std::string from, to;
+	bool ok;
+	double t0, t1;
+};
+struct MtLive { std::string path; int content; bool indir, original, moved; };
+struct MtThread
+{
+	std::vector<MtOp> ops;
+	std::vector<Bytes> contents;
+	std::vector<MtLive> live;
+	std::vector<std::string> gone;
+};
+
+static const char* MT_KIND[] = {"Directory::copy(file,newname)", "Directory::copy(file,dir)", "File::copy(newname)", "File::copy(dir)",
+                                "Directory::move(file,newname)", "Directory::move(file,dir)", "File::move(newname)"};
+
+// 8-byte little-endian words: counter in the low 32 bits, a per-case salt, the file number and 0xA0+thread in the top byte
+static Bytes mt_content(int thread, int file, uint32_t salt, size_t n)
+{
+	Bytes b(n, '\0');
+	uint64_t hi = ((uint64_t)(0xA0 + thread) << 56) | ((uint64_t)file << 48) | ((uint64_t)(salt & 0xffff) << 32);
+	size_t words = (n + 7) / 8;
+	for (size_t i = 0; i < words; i++) {
+		uint64_t w = hi | (uint32_t)i;
+		size_t left = n - i * 8;
+		memcpy(&b[i * 8], &w, left < 8 ? left : 8);
+	}
+	return b;
+}
+
+static std::string mt_whose(const Bytes& got, size_t off)
+{
+	size_t w = off & ~(size_t)7;
+	if (w + 8 > got.size()) return "";
+	unsigned t = (unsigned char)got[w + 7], f = (unsigned char)got[w + 6];
+	uint32_t k;
+	memcpy(&k, &got[w], 4);
+	if (t < 0xA0 || t > 0xA0 + 16) return "; the bytes there follow no thread's pattern";
+	return vf::fmt("; the bytes there are word %u of the pattern of thread %u file %u", k, t - 0xA0, f);
+}
+
+static void mt_worker(MtThread* t, std::atomic<int>* ready, std::atomic<int>* go)
+{
+	ready->fetch_add(1);
+	while (!go->load()) sched_yield();
+	for (size_t i = 0; i < t->ops.size(); i++) {
+		MtOp& op = t->ops[i];
+		String from = S(op.from), to = S(op.to);
+		op.t0 = vf::now();
+		switch (op.kind) {
+		case 0: case 1: op.ok = Directory::copy(from, to); break;
+		case 2: case 3: op.ok = File(from).copy(to); break;
+		case 4: case 5: op.ok = Directory::move(from, to); break;
+		default: op.ok = File(from).move(to);
+		}
+		op.t1 = vf::now();
+	}
+}
+
+static size_t mt_size(vf::Ctx& c, bool multi)
+{
+	int k = multi ? 9 : (int)c.rng.below(10);
+	if (k == 0) return 0;
+	if (k < 3) return c.rng.chance(0.5) ? 1 + c.rng.below(65535) : 1 + c.rng.below(5000);
+	if (k < 5) return 65536;
+	if (k == 5) return c.rng.chance(0.5) ? 65535 : 65537;
+	size_t blocks = c.rng.chance(0.3) ? (size_t)c.rng.range(2, 16) : (size_t)c.rng.range(2, 5);
+	size_t n = blocks * 65536;
+	if (c.rng.chance(0.5)) n += (size_t)c.rng.range(0, 8000) - 4000;
+	return n;
+}
+
+static void mode_copy_mt(vf::Ctx& c)
+{
+	Scratch sc(c);
+	int nt = c.rng.range(2, (int)c.opt->param("maxthreads", 6));
+	uint32_t salt = (uint32_t)c.rng.next();
+	std::vector<MtThread> T((size_t)nt);
+	uint64_t h = (uint64_t)nt;
+	c.desc(vf::fmt("%d threads, each copying/moving its own files at the same time (calls: 0 Directory::copy(f,newname) 1 Directory::copy(f,dir) 2 File::copy(newname) "
+	               "3 File::copy(dir) 4 Directory::move(f,newname) 5 Directory::move(f,dir) 6 File::move(newname)):", nt));
+	size_t total = 0;
+	for (int t = 0; t < nt; t++) {
+		MtThread& th = T[(size_t)t];
+		int nfiles = c.rng.range(2, 4);
+		std::string d = vf::fmt("T%d files", t);
+		for (int f = 0; f < nfiles; f++) {
+			size_t n = mt_size(c, f == 0);
+			count_size(c, n);
+			th.contents.push_back(mt_content(t, f, salt, n));
+			MtLive l = {sc.file(vf::fmt("t%d_s%d.bin", t, f)), f, false, true, false};
+			if (!posix_write(l.path, th.contents.back())) { c.inconclusive("scratch-write-failed"); return; }
+			th.live.push_back(l);
+			d += vf::fmt(" %zu", n);
+			h = vf::mix(h, n);
+		}
+		std::string dir = sc.dir(vf::fmt("t%d_d", t));
+		int nops = c.rng.range(4, 8);
+		d += " ops";
+		for (int o = 0; o < nops; o++) {
+			size_t e = c.rng.below((uint32_t)th.live.size());
+			MtLive src = th.live[e];
+			std::string base = src.path.substr(src.path.rfind('/') + 1), indirpath = dir + "/" + base;
+			bool can_dir = !src.indir;
+			for (size_t q = 0; q < th.live.size(); q++) if (th.live[q].path == indirpath) can_dir = false;
+			for (size_t q = 0; q < th.gone.size(); q++) if (th.gone[q] == indirpath) can_dir = false;
+			bool move = !src.original && c.rng.chance(0.4);
+			bool intodir = can_dir && c.rng.chance(0.35);
+			int kind = move ? (intodir ? 5 : c.rng.chance(0.5) ? 4 : 6) : (intodir ? (c.rng.chance(0.5) ? 1 : 3) : (c.rng.chance(0.5) ? 0 : 2));
+			MtOp op;
+			op.kind = kind;
+			op.from = src.path;
+			op.ok = false;
+			op.t0 = op.t1 = 0;
+			std::string dst;
+			if (intodir) { dst = indirpath; sc.also(dst); op.to = dir; }
+			else { dst = sc.file(vf::fmt("t%d_o%d.bin", t, o)); op.to = dst; }
+			th.ops.push_back(op);
+			if (move) { th.gone.push_back(src.path); th.live.erase(th.live.begin() + (long)e); }
+			MtLive l = {dst, src.content, intodir, false, move};
+			th.live.push_back(l);
+			total += th.contents[(size_t)src.content].size();
+			d += vf::fmt(" %d(f%d)", kind, src.content);
+			h = vf::mix(h, (uint64_t)kind * 16 + (uint64_t)src.content);
+			c.count((std::string("op.") + MT_KIND[kind]).c_str());
+		}
+		c.op(d);
+	}
+	c.count("copy_mt.threads", (uint64_t)nt);
+	c.count(vf::fmt("copy_mt.cases-with-%d-threads", nt).c_str());
+	{
+		std::atomic<int> ready(0), go(0);
+		std::vector<std::thread> thr;
+		for (int t = 0; t < nt; t++) thr.push_back(std::thread(mt_worker, &T[(size_t)t], &ready, &go));
+		while (ready.load() < nt) sched_yield();
+		go.store(1);
+		for (int t = 0; t < nt; t++) thr[(size_t)t].join();
+	}
+	// did calls of different threads really overlap in time?
+	int overlaps = 0;
+	for (int a = 0; a < nt; a++)
+		for (int b = a + 1; b < nt; b++)
+			for (size_t i = 0; i < T[(size_t)a].ops.size(); i++)
+				for (size_t j = 0; j < T[(size_t)b].ops.size(); j++) {
+					const MtOp &x = T[(size_t)a].ops[i], &y = T[(size_t)b].ops[j];
+					if (x.kind < 4 && y.kind < 4 && x.t0 < y.t1 && y.t0 < x.t1) overlaps++;
+				}
+	c.count(overlaps ? "copy_mt.cases-with-copies-overlapping-in-time" : "copy_mt.cases-without-observed-overlap");
+	c.count("copy_mt.pairs-of-copies-overlapping-in-time", (uint64_t)overlaps);
+	size_t verified = 0;
+	for (int t = 0; t < nt; t++) {
+		MtThread& th = T[(size_t)t];
+		for (size_t i = 0; i < th.ops.size(); i++)
+			if (!th.ops[i].ok) c.fail(th.ops[i].kind >= 4 ? "copy_mt.move.returned-false" : "copy_mt.copy.returned-false", vf::fmt("thread %d call %zu %s returned false", t, i, MT_KIND[th.ops[i].kind]));
+		for (size_t i = 0; i < th.live.size(); i++) {
+			const MtLive& l = th.live[i];
+			const Bytes& want = th.contents[(size_t)l.content];
+			Bytes got;
+			const char* key = l.original ? "copy_mt.source-changed" : l.moved ? "copy_mt.move.content" : "copy_mt.copy.content";
+			if (!posix_read(l.path, got)) c.fail(l.original ? "copy_mt.source-missing" : l.moved ? "copy_mt.move.destination-missing" : "copy_mt.copy.destination-missing", vf::fmt("thread %d: %s does not exist", t, l.path.c_str()));
+			if (got != want) {
+				size_t off = 0, m = got.size() < want.size() ? got.size() : want.size();
+				while (off < m && got[off] == want[off]) off++;
+				c.fail(key, vf::fmt("thread %d, file %d (%zu bytes): ", t, l.content, want.size()) + differ(got, want) + mt_whose(got, off));
+			}
+			verified += got.size();
+			c.count("copy_mt.files-verified");
+		}
+		for (size_t i = 0; i < th.gone.size(); i++) c.count(posix_exists(th.gone[i]) ? "observed.move-left-the-source" : "observed.move-removed-the-source");
+	}
+	c.count("copy_mt.KiB-verified", verified / 1024);
+	c.count("copy_mt.KiB-copied", total / 1024);
+	c.distinct(h);
+	if (c.want_sample() && c.idx % 5 == 1) c.sample(c.curdesc().substr(0, 900) + "; every source and destination read with open/read equals its thread's pattern");
+}
+
 int main(int argc, char** argv)
 {
 	vf::Runner R;
@@ -1083,6 +1552,8 @@ int main(int argc, char** argv)
 	R.add("bom", mode_bom, "UTF-8+BOM / UTF-16LE / UTF-16BE files of random scalar sequences, and near-miss prefixes");
 	R.add("copy", mode_copy, "Directory::copy/move and File::copy/move");
 	R.add("big", mode_big, "sizes above 200000 bytes");
+	R.add("sameobj", mode_sameobj, "histories of metadata queries, opens, writes, closes and reads through ONE long-lived File / TextFile object");
+	R.add("copy_mt", mode_copy_mt, "2-6 threads copying/moving their own files at the same time (beyond the stated quantifier)");
 	R.setup = [](const vf::Options& o) {
 		g_dir = o.out + "/fs";
 		mkdir(g_dir.c_str(), 0777);
